@@ -1,22 +1,5 @@
 (* C09 -- the /sys/block fallback of disk_io_counters (no /proc/diskstats) *)
-From PV Require Import C09.Spec C09.Lib C09.ProofsDisk.
-
-(* the loop and the front end, for any list of kernel devices whose entries were read *)
-Lemma loop_answer perdisk sb l :
-  NoDup (map d_name l) -> perdisk = true \/ sysblock_agrees sb l = true ->
-  front sdiskio_fields perdisk (fold_left (disk_store perdisk sb) (map raw_entry l) [])
-  = Val (disks_answer model_view perdisk l).
-Proof.
-  intros Hnd Hsb. rewrite disk_fold.
-  rewrite fold_dset_nodup; [|rewrite map_map; cbn [disk_kv fst]; now apply NoDup_map_filter|intros k _ []].
-  cbn [app]. unfold disk_kv. apply front_disk_answer.
-  destruct perdisk.
-  - apply filter_true. reflexivity.
-  - destruct Hsb as [Hsb|Hsb]; [discriminate|].
-    apply filter_ext_in'. intros d Hd. unfold keep, is_storage_device. cbn [orb].
-    unfold sysblock_agrees in Hsb. rewrite forallb_forall in Hsb.
-    apply Bool.eqb_prop. exact (Hsb d Hd).
-Qed.
+From PV Require Import C09.Spec C09.TextLemmas C09.Lib C09.ProofsDisk.
 
 Definition to_kdisk (e : ksys) : kdisk :=
   {| d_major := [48]; d_minor := [48]; d_name := y_name e; d_whole := y_whole e;
@@ -34,45 +17,56 @@ Proof. unfold sys_rest. rewrite map_snd_cols, map_map. cbn [snd]. apply map_id. 
 
 Lemma wf_sys_inv e :
   wf_sys e = true ->
-  name_ok (y_name e) = true /\ contains 47 (y_name e) = false /\ is_dec (rd_ios (y_stat e)) = true
+  contains 47 (dec (y_name e)) = false /\ is_dec (rd_ios (y_stat e)) = true
   /\ forallb is_dec (tl (iostat_list (y_stat e)) ++ y_extra e) = true
   /\ forallb is_dec (iostat_list (y_stat e)) = true.
 Proof.
-  unfold wf_sys. intros H. apply andb_true_iff in H as [H H3]. apply andb_true_iff in H as [H1 H2].
+  unfold wf_sys. intros H. apply andb_true_iff in H as [H2 H3].
   apply negb_true_iff in H2. repeat split; try assumption.
   - unfold iostat_list in H3. cbn [app forallb] in H3. now apply andb_true_iff in H3 as [H3 _].
   - unfold iostat_list in H3. cbn [app forallb] in H3. apply andb_true_iff in H3 as [_ H3]. exact H3.
   - rewrite forallb_app in H3. now apply andb_true_iff in H3 as [H3 _].
 Qed.
 
-Lemma split_sys_stat e :
-  wf_sys e = true -> split_ws (k_sys_stat e) = iostat_list (y_stat e) ++ y_extra e.
+Lemma sys_stat_all P e :
+  P 32 = true -> P 10 = true -> (forall c, is_digit c = true -> P c = true) -> wf_sys e = true ->
+  forallb P (k_sys_stat e) = true.
 Proof.
-  intros H. destruct (wf_sys_inv e H) as (_ & _ & H1 & Hr & _).
-  rewrite sys_stat_shape, split_ws_repeat.
-  rewrite split_ws_tok_app; [|now apply is_dec_tok_ok|now apply starts_ws_sp_items].
-  rewrite split_ws_sp_items; [|rewrite sys_rest_toks; now apply decs_tok_ok|reflexivity].
-  rewrite sys_rest_toks. change (split_ws [10]) with (@nil bytes). rewrite app_nil_r. reflexivity.
+  intros H32 H10 D H. destruct (wf_sys_inv e H) as (_ & H1 & Hr & _).
+  rewrite sys_stat_shape. rewrite !forallb_app.
+  rewrite forallb_repeat by exact H32. rewrite (dec_all _ _ D H1).
+  rewrite forallb_sp_items; [cbn [forallb]; now rewrite H10|exact H32|].
+  rewrite sys_rest_toks. now apply decs_all.
 Qed.
 
-Lemma ascii_sys_stat e : wf_sys e = true -> ascii_ok (k_sys_stat e) = true.
+Lemma text_sys_stat e : wf_sys e = true -> text_of (k_sys_stat e) = k_sys_stat e.
 Proof.
-  intros H. destruct (wf_sys_inv e H) as (_ & _ & H1 & Hr & _).
-  assert (D : forall c, is_digit c = true -> ascii_ok_byte c = true)
-    by (intros c Hc; unfold is_digit in Hc; unfold ascii_ok_byte; lia).
-  rewrite sys_stat_shape. unfold ascii_ok. rewrite !forallb_app.
-  rewrite forallb_repeat by reflexivity. rewrite (dec_all _ _ D H1).
-  rewrite forallb_sp_items; [reflexivity|reflexivity|]. rewrite sys_rest_toks. now apply decs_all.
+  intros H. unfold text_of.
+  rewrite dec_ascii by (apply sys_stat_all; [reflexivity|reflexivity|exact digit_ascii|exact H]).
+  apply univ_nl_id. apply contains_false_forallb.
+  apply sys_stat_all; [reflexivity|reflexivity| |exact H].
+  intros c Hc. unfold is_digit in Hc. lia.
+Qed.
+
+Lemma split_sys_stat e :
+  wf_sys e = true -> usplit (k_sys_stat e) = iostat_list (y_stat e) ++ y_extra e.
+Proof.
+  intros H. destruct (wf_sys_inv e H) as (_ & H1 & Hr & _).
+  rewrite sys_stat_shape, usplit_repeat.
+  rewrite usplit_tok_app; [|now apply is_dec_utok|now apply ustarts_sp_items].
+  etransitivity; [apply f_equal; apply usplit_sp_items;
+                  [rewrite sys_rest_toks; now apply decs_utok|reflexivity]|].
+  rewrite sys_rest_toks. change (usplit [10]) with (@nil text). rewrite app_nil_r. reflexivity.
 Qed.
 
 Lemma sysfs_entry_printed e :
   wf_sys e = true -> sysfs_entry (y_name e, k_sys_stat e) = Val (raw_entry (to_kdisk e)).
 Proof.
-  intros H. destruct (wf_sys_inv e H) as (_ & _ & _ & _ & Hs).
-  unfold sysfs_entry. rewrite (ascii_sys_stat e H). cbv zeta.
-  rewrite split_ws_strip, (split_sys_stat e H).
+  intros H. destruct (wf_sys_inv e H) as (_ & _ & _ & Hs).
+  unfold sysfs_entry. cbv zeta. rewrite (text_sys_stat e H).
+  rewrite usplit_strip, (split_sys_stat e H).
   pose proof (forallb_firstn _ 10 _ Hs) as H10. unfold iostat_list in H10. cbn [firstn] in H10.
-  unfold iostat_list. cbn [app firstn]. rewrite (mapM_py_int_dec _ H10). reflexivity.
+  unfold iostat_list. cbn [app firstn]. rw_ints H10. reflexivity.
 Qed.
 
 Lemma mapM_sysfs l :
@@ -97,13 +91,21 @@ Proof.
   induction l as [|a l IH]; [reflexivity|]. cbn [map filter]. destruct (p (f a)); cbn [map]; now rewrite IH.
 Qed.
 
-Lemma spec_sys_answer perdisk l : disks_answer model_view perdisk (map to_kdisk l) = spec_sys perdisk l.
+Lemma spec_sys_answer sb perdisk l :
+  forallb wf_sys l = true -> perdisk = true \/ sys_agrees sb l = true ->
+  disks_answer model_view (listed sb) perdisk (map to_kdisk l) = spec_sys perdisk l.
 Proof.
-  unfold disks_answer, spec_sys. destruct perdisk.
+  intros Hwf Hsb. unfold disks_answer, spec_sys. destruct perdisk.
   - rewrite map_map. reflexivity.
-  - rewrite filter_map_comm. cbn [to_kdisk d_whole].
-    change (fun a : ksys => y_whole a) with y_whole.
-    destruct (filter y_whole l) as [|w ws]; [reflexivity|].
+  - destruct Hsb as [Hsb|Hsb]; [discriminate|].
+    rewrite filter_map_comm.
+    assert (E : filter (fun a => listed sb (to_kdisk a)) l = filter y_whole l).
+    { apply filter_ext_in'. intros e He. unfold listed. cbn [to_kdisk d_name].
+      rewrite forallb_forall in Hwf. destruct (wf_sys_inv e (Hwf e He)) as (Hns & _).
+      rewrite (sysfs_name_noslash _ Hns).
+      unfold sys_agrees in Hsb. rewrite forallb_forall in Hsb.
+      apply Bool.eqb_prop. exact (Hsb e He). }
+    rewrite E. destruct (filter y_whole l) as [|w ws]; [reflexivity|].
     cbn [map]. rewrite map_map. reflexivity.
 Qed.
 
@@ -117,13 +119,6 @@ Proof.
   rewrite loop_answer.
   - now rewrite spec_sys_answer.
   - rewrite map_map. cbn [to_kdisk d_name]. now apply nodupb_NoDup.
-  - destruct Hsb as [Hsb|Hsb]; [now left|right].
-    unfold sysblock_agrees. rewrite forallb_forall. intros d Hd.
-    apply in_map_iff in Hd as [e [<- He]]. cbn [to_kdisk d_name d_whole].
-    assert (Hw : wf_sys e = true) by (rewrite forallb_forall in Hwf; now apply Hwf).
-    destruct (wf_sys_inv e Hw) as (_ & Hns & _).
-    rewrite (sysfs_name_noslash _ Hns).
-    unfold sys_agrees in Hsb. rewrite forallb_forall in Hsb. exact (Hsb e He).
 Qed.
 
 Theorem no_source sb perdisk : disk_io_counters perdisk sb NoSource = Exc NotImplementedError.
